@@ -154,7 +154,7 @@ func firstDiff(a, b string) string {
 		}
 		return s[lo:hi]
 	}
-	return fmt.Sprintf("before: …%s…  after: …%s…", cut(a), cut(b))
+	return fmt.Sprintf("before: ...%s...  after: ...%s...", cut(a), cut(b))
 }
 
 // ---------------------------------------------------------------------------------------------
